@@ -206,14 +206,29 @@ fn config_merge(sc: &Value) -> Value {
     for c in sc["cases"].as_array().cloned().unwrap_or_default() {
         let docs: Vec<Value> = c["docs"].as_array().cloned().unwrap_or_default();
         let ptr = c["pointer"].as_str().unwrap_or("").to_string();
+        // files: [{name, text}] written to a scratch directory and loaded (in this order) before the partial documents;
+        // an entry without text is a path that does not exist
+        let dir = std::env::temp_dir().join(format!("vreplay_merge_{}_{}", std::process::id(), outs.len()));
+        let mut paths = vec![];
+        if let Some(files) = c["files"].as_array() {
+            let _ = std::fs::create_dir_all(&dir);
+            for f in files {
+                let p = dir.join(f["name"].as_str().unwrap_or("x.json"));
+                if let Some(t) = f["text"].as_str() {
+                    let _ = std::fs::write(&p, t);
+                }
+                paths.push(p);
+            }
+        }
         let mut seen: Vec<Value> = vec![];
         for _ in 0..sc["repeat"].as_u64().unwrap_or(8) {
-            let raw = load_configs_raw(vec![], Some(docs.clone()));
+            let raw = load_configs_raw(paths.clone(), if docs.is_empty() && !paths.is_empty() { None } else { Some(docs.clone()) });
             let v = raw.pointer(&ptr).cloned().unwrap_or(Value::Null);
             if !seen.contains(&v) {
                 seen.push(v);
             }
         }
+        let _ = std::fs::remove_dir_all(&dir);
         outs.push(json!({"id": c["id"], "values": seen}));
     }
     json!({"results": outs})
